@@ -223,7 +223,7 @@ impl BlteHeader {
 #[allow(clippy::cast_possible_truncation)]
 pub struct ExtendedHeader {
     /// Flags indicating chunk info format
-    #[br(map = |x: u8| HeaderFlags::from_byte(x).expect("valid header flags byte"))]
+    #[br(try_map = |x: u8| HeaderFlags::from_byte(x).ok_or_else(|| BlteError::InvalidHeader(format!("unknown chunk table format 0x{x:02X}"))))]
     pub flags: HeaderFlags,
 
     /// 24-bit chunk count (big-endian)
